@@ -6,6 +6,7 @@ CONSTANTS
   MaxWriteRegs = 123
   AddrSpace = 65536
   TxMod = 65536
+  Bug = "none"
 CONSTRAINT Furthest
 INVARIANT OneOutstanding
 INVARIANT TxBounded
